@@ -136,6 +136,37 @@ def bsearch_bounds(ck, fn, report):
     return dict(back_edge_paths=r["paths"], comparator_element_arguments=len(r["calls"]), invariant="0 <= B, B + n <= nmemb", inductive=r["inductive"])
 
 
+BIT_SCANS = ("llvm.cttz.", "llvm.ctlz.", "llvm.ctpop.")
+
+
+def bitscan_rule(prog, tu, report):
+    """clause (necessary for 'sorts for every element count'): smoothsort keeps the shape of its Leonardo heap in a two-word bit vector and
+    navigates by counting trailing zeros of a word.  A bit scan whose operand is a *truncation* of a wider value ignores the upper bits:
+    once the heap holds a tree 32 orders above the smallest one (18 454 930 elements) the scan sees 0 -- undefined for the intrinsic -- and
+    the walk leaves the array.  Every bit-scan intrinsic call in the unit must take its operand at full width (no trunc on the way,
+    through casts only)."""
+    n = 0
+    for fn in prog.funcs.values():
+        if fn.mod["tu"] != tu:
+            continue
+        for i in fn.insts():
+            if i["op"] != "call" or not str(i.get("callee", "")).startswith(BIT_SCANS):
+                continue
+            n += 1
+            o, hops = i["args"][0], 0
+            while o.get("k") == "v" and hops < 6:
+                d = fn.defs.get(o["id"])
+                if d is None or d["op"] not in ("trunc", "zext", "sext", "bitcast"):
+                    break
+                if d["op"] == "trunc":
+                    report("C16:bit-scan-narrowed:%s:%s:%s" % (fn.name, i["callee"], d["ops"][0].get("ty")), "T-bit-scan-covers-the-word", fn.loc(i),
+                           "%s scans only the low %d bits of a %s value with %s: the upper bits of the heap's shape word are ignored (a zero operand is undefined), wrong from 18454930 elements on"
+                           % (fn.name, d["bits"], d["ops"][0].get("ty"), i["callee"]))
+                    break
+                o = d["ops"][0]; hops += 1
+    return n
+
+
 def run(ck):
     mods, info = frontend.load_modules()
     prog = Program(mods)
@@ -155,10 +186,19 @@ def run(ck):
         if tu.endswith("bsearch_s.c"):
             res[tu]["bsearch_sites"] = bsearch_args(mod, ck.report)
             res[tu]["element_index"] = bsearch_bounds(ck, prog.funcs.get(entry), ck.report)
+    nscan = bitscan_rule(prog, "misc/qsort_s.c" if "misc/qsort_s.c" in TUS else next(t for t in TUS if t.endswith("qsort_s.c")), ck.report)
+    if nscan < 2:
+        ck.fail_broken("bit-scan rule: only %d bit-scan intrinsic calls in qsort_s.c (pntz used to have 2; the de Bruijn fallback is not interpreted)" % nscan)
     fx = selftest(ck)
+    fprog = Program(frontend.load_sources([os.path.join(frontend.VERIF, "fixtures", "c16.c")]))
+    got = []
+    nfx = bitscan_rule(fprog, fprog.mods[0]["tu"], lambda key, *a: got.append(key))
+    fx["bitscan"] = dict(fired=sorted(got), calls=nfx)
+    if sorted(got) != ["C16:bit-scan-narrowed:scan_narrow:llvm.cttz.i32:i64"] or nfx != 2:
+        ck.fail_broken("fixture c16.c: bit-scan rule got %s (%d calls)" % (sorted(got), nfx))
     if nsites < 5:
         ck.fail_broken("fewer comparator call sites than confirmed by hand (%d < 5)" % nsites)
-    cov = dict(explanation="All %d indirect calls of comparator type in qsort_s.c and bsearch_s.c were found; at each the callee must be the function's own comparator parameter and the "
+    cov = dict(bit_scans_checked=nscan, explanation="All %d indirect calls of comparator type in qsort_s.c and bsearch_s.c were found; at each the callee must be the function's own comparator parameter and the "
                "third argument its own context parameter (SSA identity through bitcasts), and every internal call that reaches such a function must forward the caller's own pair, "
                "up to the exported entry's (compar, context). bsearch_s additionally passes key first and a base-derived element second. bsearch_s: in the element-index domain the invariant 0 <= B, B + n <= nmemb "
                "is inductive over both paths of the search loop and the element handed to the comparator has an index in [0, nmemb). No claim about sortedness, permutation, "
